@@ -1,5 +1,5 @@
 (* C02sim_h -- per-state simulation lemmas (M_tok state method vs S_tok), see Proofs/C02sim.v and C02simtac.v.
-   Each lemma:  R m s -> st m = X -> wk m = true -> covered m = true -> simok s (step_X m). *)
+   Each lemma:  R m s -> st m = X -> wk m = true -> plain m = true -> simok s (step_X m). *)
 From Coq Require Import NArith List Bool Arith Lia ZifyBool ZifyN.
 From Verif Require Import Sx Str.
 From Verif.Gen Require Import Entities Tokenizer.
@@ -9,24 +9,24 @@ From Verif.Proofs Require Import C02a C02dict C08 C02sim C02simtac.
 Import ListNotations.
 Local Open Scope N_scope.
 
-Lemma sim_afterDoctypeSystemKeywordState : forall m s, R m s -> st m = afterDoctypeSystemKeywordState -> wk m = true -> covered m = true -> simok s (step_afterDoctypeSystemKeywordState m).
+Lemma sim_afterDoctypeSystemKeywordState : forall m s, R m s -> st m = afterDoctypeSystemKeywordState -> wk m = true -> plain m = true -> simok s (step_afterDoctypeSystemKeywordState m).
 Proof. sim_state step_afterDoctypeSystemKeywordState. Qed.
 
-Lemma sim_beforeDoctypeSystemIdentifierState : forall m s, R m s -> st m = beforeDoctypeSystemIdentifierState -> wk m = true -> covered m = true -> simok s (step_beforeDoctypeSystemIdentifierState m).
+Lemma sim_beforeDoctypeSystemIdentifierState : forall m s, R m s -> st m = beforeDoctypeSystemIdentifierState -> wk m = true -> plain m = true -> simok s (step_beforeDoctypeSystemIdentifierState m).
 Proof. sim_state step_beforeDoctypeSystemIdentifierState. Qed.
 
-Lemma sim_characterReferenceInRcdata : forall m s, R m s -> st m = characterReferenceInRcdata -> wk m = true -> covered m = true -> simok s (step_characterReferenceInRcdata m).
+Lemma sim_characterReferenceInRcdata : forall m s, R m s -> st m = characterReferenceInRcdata -> wk m = true -> plain m = true -> simok s (step_characterReferenceInRcdata m).
 Proof. sim_state step_characterReferenceInRcdata. Qed.
 
-Lemma sim_commentEndState : forall m s, R m s -> st m = commentEndState -> wk m = true -> covered m = true -> simok s (step_commentEndState m).
+Lemma sim_commentEndState : forall m s, R m s -> st m = commentEndState -> wk m = true -> plain m = true -> simok s (step_commentEndState m).
 Proof. sim_state step_commentEndState. Qed.
 
-Lemma sim_doctypePublicIdentifierSingleQuotedState : forall m s, R m s -> st m = doctypePublicIdentifierSingleQuotedState -> wk m = true -> covered m = true -> simok s (step_doctypePublicIdentifierSingleQuotedState m).
+Lemma sim_doctypePublicIdentifierSingleQuotedState : forall m s, R m s -> st m = doctypePublicIdentifierSingleQuotedState -> wk m = true -> plain m = true -> simok s (step_doctypePublicIdentifierSingleQuotedState m).
 Proof. sim_state step_doctypePublicIdentifierSingleQuotedState. Qed.
 
-Lemma sim_scriptDataDoubleEscapedDashDashState : forall m s, R m s -> st m = scriptDataDoubleEscapedDashDashState -> wk m = true -> covered m = true -> simok s (step_scriptDataDoubleEscapedDashDashState m).
+Lemma sim_scriptDataDoubleEscapedDashDashState : forall m s, R m s -> st m = scriptDataDoubleEscapedDashDashState -> wk m = true -> plain m = true -> simok s (step_scriptDataDoubleEscapedDashDashState m).
 Proof. sim_state step_scriptDataDoubleEscapedDashDashState. Qed.
 
-Lemma sim_scriptDataDoubleEscapedDashState : forall m s, R m s -> st m = scriptDataDoubleEscapedDashState -> wk m = true -> covered m = true -> simok s (step_scriptDataDoubleEscapedDashState m).
+Lemma sim_scriptDataDoubleEscapedDashState : forall m s, R m s -> st m = scriptDataDoubleEscapedDashState -> wk m = true -> plain m = true -> simok s (step_scriptDataDoubleEscapedDashState m).
 Proof. sim_state step_scriptDataDoubleEscapedDashState. Qed.
 
